@@ -73,10 +73,11 @@ theorem hstepSys_advance (h : Hist) (s : Sys) (now : Nat) :
 theorem agentEv_nat' (s : Sys) (X : Bool) (e : Ev) : (s.agentEv X e).1.nat = s.nat := (agentEv_topo s X e).1
 
 section
-variable (K : Ev → Bool) (R : Hist → Sys → Prop) (D : Hist → Sys → Dgram → Prop)
+variable (K : Ev → Bool) (R : Hist → Sys → Prop) (D : Hist → Sys → Dgram → Prop) (Z : List Nomination → Prop)
 
-/-- what `sched_run` asks of `R` (`K` = the API events allowed; hub events are always allowed) -/
-structure SchedOK : Prop where
+/-- what `sched_run` asks of `R` (`K` = the API events allowed; hub events are always allowed; `Z` = what is assumed of the
+log of issued nominations after the event) -/
+structure SchedOKZ : Prop where
   hub : ∀ ev, ev.isApi = false → K ev = true
   sess : ∀ h s, R h s → Session s
   dgram : ∀ h s, R h s → ∀ d ∈ s.inflight, D h s d
@@ -84,13 +85,16 @@ structure SchedOK : Prop where
   frame : ∀ h s s', R h s → s'.a = s.a → s'.b = s.b → s'.nat = s.nat → (∀ d ∈ s'.inflight, d ∈ s.inflight) → R h s'
   agent : ∀ h s X ev, R h s → K ev = true →
     ((∀ now la src m, ev ≠ .inbound now la src m) ∨ ∃ d, D h s d ∧ ev = evOf s d) →
-    Session (s.agentEv X ev).1 → (∀ x ∈ (hstep h X (s.agent X) ev).issued, 0 < x.1) →
+    Session (s.agentEv X ev).1 → Z (hstep h X (s.agent X) ev).issued →
     R (hstep h X (s.agent X) ev) (s.agentEv X ev).1
 
-variable {K R D}
+/-- … with "every value issued is positive" for `Z` -/
+abbrev SchedOK : Prop := SchedOKZ K R D (fun l => ∀ x ∈ l, 0 < x.1)
 
-theorem sched_handOver (ok : SchedOK K R D) {h : Hist} {s1 : Sys} (q : R h s1) (d : Dgram) (hd : D h s1 d)
-    (hsess : Session (s1.handOver d).1) (hz : ∀ x ∈ (hstepHand h s1 d).issued, 0 < x.1) :
+variable {K R D Z}
+
+theorem sched_handOver (ok : SchedOKZ K R D Z) {h : Hist} {s1 : Sys} (q : R h s1) (d : Dgram) (hd : D h s1 d)
+    (hsess : Session (s1.handOver d).1) (hz : Z (hstepHand h s1 d).issued) :
     R (hstepHand h s1 d) (s1.handOver d).1 := by
   unfold hstepHand at hz ⊢
   rw [handOver_eq] at hsess ⊢
@@ -113,10 +117,10 @@ theorem sched_handOver (ok : SchedOK K R D) {h : Hist} {s1 : Sys} (q : R h s1) (
       · exact this
 
 /-- the two timer ticks of `advance` -/
-theorem sched_advance (ok : SchedOK K R D) {h : Hist} {s : Sys} (q : R h s) (now : Nat)
+theorem sched_advance (ok : SchedOKZ K R D Z) {h : Hist} {s : Sys} (q : R h s) (now : Nat)
     (hsess : Session (Sys.run s (.advance now)))
-    (hz : ∀ x ∈ (if s.hasB then hstep (hstep h false s.a (.advance now)) true s.b (.advance now)
-                 else hstep h false s.a (.advance now)).issued, 0 < x.1) :
+    (hz : Z (if s.hasB then hstep (hstep h false s.a (.advance now)) true s.b (.advance now)
+                 else hstep h false s.a (.advance now)).issued) :
     R (if s.hasB then hstep (hstep h false s.a (.advance now)) true s.b (.advance now)
        else hstep h false s.a (.advance now)) (Sys.run s (.advance now)) := by
   have hrun : Sys.run s (.advance now) = (s.advance now).1 := rfl
@@ -147,25 +151,20 @@ theorem sched_advance (ok : SchedOK K R D) {h : Hist} {s : Sys} (q : R h s) (now
       obtain ⟨h1, h2, h3, h4, h5, h6, h7, h8, h9⟩ := ok.sess h s0 q0
       obtain ⟨g1, g2, g3, g4, g5, g6, g7, g8, g9⟩ := hsess
       exact ⟨g1, h2, g3, h4, g5, h6, g7, h8, h9⟩
-    have hzA : ∀ x ∈ (hstep h false s0.a (.advance now)).issued, 0 < x.1 := by
-      intro x hx
-      exact hz x hx
+    have hzA : Z (hstep h false s0.a (.advance now)).issued := hz
     have q1 := ok.agent h s0 false (.advance now) q0 hkk (Or.inl hni) hsA hzA
     generalize hs1 : (s0.agentEv false (.advance now)).1 = s1 at hsess q1 ⊢
     have hb1 : s1.b = s0.b := by rw [← hs1]; exact rfl
     have q2 := ok.agent _ s1 true (.advance now) q1 hkk (Or.inl hni) hsess (by
-      intro x hx
-      have hx' : x ∈ (hstep (hstep h false s0.a (.advance now)) true s0.b (.advance now)).issued := by
-        have e : s1.agent true = s0.b := hb1
-        rw [e] at hx; exact hx
-      exact hz x hx')
+      have e : s1.agent true = s0.b := hb1
+      rw [e]; exact hz)
     have e : s1.agent true = s0.b := hb1
     rw [e] at q2
     exact q2
 
 /-- **One system event.** -/
-theorem sched_run (ok : SchedOK K R D) {h : Hist} {s : Sys} (q : R h s) (e : SysEv)
-    (hk : sysK K e = true) (hsess : Session (Sys.run s e)) (hz : ∀ x ∈ (hstepSys h s e).issued, 0 < x.1) :
+theorem sched_run (ok : SchedOKZ K R D Z) {h : Hist} {s : Sys} (q : R h s) (e : SysEv)
+    (hk : sysK K e = true) (hsess : Session (Sys.run s e)) (hz : Z (hstepSys h s e).issued) :
     R (hstepSys h s e) (Sys.run s e) := by
   cases e with
   | api X ev =>
